@@ -12,6 +12,10 @@ and the frames an independent RFC 6455 parser recovered from the bytes the peer 
   the Ping / Close to the application, i.e. after the frames queued before it was read),
 * `inq`: the frames the peer has sent that no read has delivered yet.
 
+`healthy` is cleared when the transport itself reports a failure (`transportErr`, what the `io.ReadWriter` under the
+adapter returned) or a callback completes with a transport error; from then on completions may carry errors and the
+wire is no longer compared (the property is stated for a healthy transport), the ledger still is.
+
 It knows nothing of pendingFrames, flush owners, waiters or reactors.
 -/
 import Sonic.Spec.WsStream
@@ -79,6 +83,7 @@ inductive Ev where
   | peer (f : InFrame)
   | peerEof
   | wire (frames : List WireFrame)
+  | transportErr                      -- the transport under the adapter reported an error to a read(2) / write(2)
   | finish (partialBytes : Nat) (healthy : Bool)
   | skip
   deriving Repr, DecidableEq
@@ -237,9 +242,12 @@ def step (s : S) : Ev → M S
       pure { s2 with last := st }
   | .peer f => .ok { s with inq := s.inq ++ [f] }
   | .peerEof => .ok s
-  | .wire frames => do
+  | .wire frames =>
+      -- the order on the wire is promised while the transport is healthy (a failed write loses its frame)
+      if !s.healthy then .ok s else do
       let rest ← matchWire s.expect frames
       pure { s with expect := rest }
+  | .transportErr => .ok { s with healthy := false }
   | .finish partialBytes healthy =>
       if !(healthy && s.healthy) then .ok s
       else if s.cbs.any (fun c => !c.done) then .error "callback-never-invoked"
